@@ -67,3 +67,11 @@ Example C32_nonvacuous :
   file_location [97; 195; 169; 10; 98]%N 3 URunes = Some (1, 3%Z) /\
   file_inverse_location [97; 195; 169; 10; 98]%N 1 3%Z URunes = Some 3%Z.
 Proof. exact roundtrip_example. Qed.
+
+(* a corollary of the round trip: within one unit the conversion is injective on character boundaries - two
+   different positions of a text never get the same (line, column) *)
+Theorem C32_location_injective : forall text u off1 off2 lc,
+  boundary text off1 -> boundary text off2 ->
+  file_location text off1 u = Some lc -> file_location text off2 u = Some lc -> off1 = off2.
+Proof. exact location_injective_lemma. Qed.
+Print Assumptions C32_location_injective.
